@@ -241,6 +241,8 @@ def run(ctx):
     n = 6000 if ctx.tier == 'quick' else 60000
     first_corr = run_generated(ctx, n, 6, allow_huge=True)
     long_lengths(ctx)
+    from tools import worldcheck
+    worldcheck.logging_independence(ctx, 'C03')
     recordings.payload_check(ctx, 'C03', quick_n=3)
     if first_corr and not ctx.violations:
         # the model no longer describes the code: search was the full generator budget above
